@@ -456,13 +456,7 @@ class HttpProxyPlugin(HttpProtocolHandlerPlugin):
                             return
                         self.pipeline_request = r
                     assert self.pipeline_request is not None
-                    # TODO(abhinavsingh): Remove memoryview wrapping here after
-                    # parser is fully memoryview compliant
-                    self.upstream.queue(
-                        memoryview(
-                            self.pipeline_request.build(),
-                        ),
-                    )
+                    self._queue_request_for_upstream(self.pipeline_request)
                     if not self.pipeline_request.is_connection_upgrade:
                         self.pipeline_request = None
             # For scenarios where we cannot peek into the data,
@@ -525,34 +519,50 @@ class HttpProxyPlugin(HttpProtocolHandlerPlugin):
             # If an upstream server connection was established for http request,
             # queue the request for upstream server.
             else:
-                # - proxy-connection header is a mistake, it doesn't seem to be
-                #   officially documented in any specification, drop it.
-                # - proxy-authorization is of no use for upstream, remove it.
-                self.request.del_headers(
-                    [
-                        httpHeaders.PROXY_AUTHORIZATION,
-                        httpHeaders.PROXY_CONNECTION,
-                    ],
-                )
-                # - For HTTP/1.0, connection header defaults to close
-                # - For HTTP/1.1, connection header defaults to keep-alive
-                # Respect headers sent by client instead of manipulating
-                # Connection or Keep-Alive header.  However, note that per
-                # https://developer.mozilla.org/en-US/docs/Web/HTTP/Headers/Connection
-                # connection headers are meant for communication between client and
-                # first intercepting proxy.
-                self.request.add_headers(
-                    [(b'Via', b'1.1 %s' % PROXY_AGENT_HEADER_VALUE)],
-                )
-                # Disable args.disable_headers before dispatching to upstream
-                self.upstream.queue(
-                    memoryview(
-                        self.request.build(
-                            disable_headers=self.flags.disable_headers,
-                        ),
-                    ),
-                )
+                self._queue_request_for_upstream(self.request)
         return False
+
+    def _queue_request_for_upstream(self, request: HttpParser) -> None:
+        """Rebuilds and queues a client request for the upstream server.
+
+        Used for the first as well as for every later (keep-alive, pipelined
+        or intercepted) request of a connection, so that hop-by-hop proxy
+        headers never reach the upstream server."""
+        assert self.upstream
+        # - proxy-connection header is a mistake, it doesn't seem to be
+        #   officially documented in any specification, drop it.
+        # - proxy-authorization is of no use for upstream, remove it.
+        request.del_headers(
+            [
+                httpHeaders.PROXY_AUTHORIZATION,
+                httpHeaders.PROXY_CONNECTION,
+            ],
+        )
+        # - For HTTP/1.0, connection header defaults to close
+        # - For HTTP/1.1, connection header defaults to keep-alive
+        # Respect headers sent by client instead of manipulating
+        # Connection or Keep-Alive header.  However, note that per
+        # https://developer.mozilla.org/en-US/docs/Web/HTTP/Headers/Connection
+        # connection headers are meant for communication between client and
+        # first intercepting proxy.
+        #
+        # Requests read out of an intercepted TLS tunnel are relayed
+        # without announcing the proxy.
+        if not self.request.is_https_tunnel:
+            request.add_headers(
+                [(b'Via', b'1.1 %s' % PROXY_AGENT_HEADER_VALUE)],
+            )
+        # Disable args.disable_headers before dispatching to upstream
+        #
+        # TODO(abhinavsingh): Remove memoryview wrapping here after
+        # parser is fully memoryview compliant
+        self.upstream.queue(
+            memoryview(
+                request.build(
+                    disable_headers=self.flags.disable_headers,
+                ),
+            ),
+        )
 
     def handle_pipeline_response(self, raw: memoryview) -> None:
         if self.pipeline_response is None:
